@@ -177,17 +177,3 @@ Proof.
     unfold pabs, didx. cbn [cpal cdata]. rewrite (vpl_nz d W). unfold Proofs.C11.abs.
     reflexivity.
 Qed.
-
-(* KNOWN FINDING: save data of a section with more than 256 distinct block states as vanilla writes it
-   (a palette of 300 entries, 9-bit indices: 586 longs for 4096 positions) denotes an array for the
-   specification, but the constructor takes it for direct ids and panics on the data length *)
-Lemma with_data_wide_refuted :
-  let pat := map Z.of_nat (seq 0 300) in
-  let data := repeat 0%N 586 in
-  (exists a, spec_saved 9 4096 pat data = Some a /\ length a = 4096%nat) /\
-  pc_with_data (mkCfg KStates 15) 4096 data pat = RPanic pNew.
-Proof.
-  split.
-  - eexists. split; vm_compute; reflexivity.
-  - vm_compute. reflexivity.
-Qed.
